@@ -70,7 +70,7 @@ func c03Child(c *mon.Child) {
 	nInputs := c.N(100, 300)
 	for mi := 0; mi < nMaps; mi++ {
 		r := c.RNG("map", mi)
-		o := &lexgen.MapOpts{Backrefs: true, MaxStates: 6, Elide: true, Hostile: r.Chance(1, 4), Plain: r.Chance(1, 4)}
+		o := &lexgen.MapOpts{Backrefs: true, MaxStates: 6, Elide: true, Hostile: r.Chance(1, 4), Plain: r.Chance(1, 4), OddNames: true}
 		g := lexgen.GenMap(r, o)
 		def, err, panicked, pv := buildDef(g)
 		if panicked {
